@@ -295,7 +295,8 @@ def cache_cases(draw, modules=('std', 'safe'), algos=tuple(H.ALGOS), maxsizes=(1
             b = draw(bindings(sig, valstrat))
         if b not in pool_b:
             pool_b.append(b)
-    if key_req == 'hashable' and kkind == 'raw' and draw(st.integers(0, 9)) < 2:
+    twin_pair = []
+    if key_req == 'hashable' and kkind == 'raw' and draw(st.integers(0, 9)) < (6 if (keymap and keymap.get('typed')) else 2):
         # equal-but-differently-typed values swapped between two parameters: (x=1, y=1.0) vs (x=1.0, y=1)
         cands = [b for b in pool_b if len(b.get('named', [])) + len(b.get('kwonly', [])) + len(b.get('xkw', [])) >= 2]
         if cands:
@@ -310,6 +311,7 @@ def cache_cases(draw, modules=('std', 'safe'), algos=tuple(H.ALGOS), maxsizes=(1
                     nb[kind][i][1] = list(v)
                 if nb not in pool_b:
                     pool_b.append(nb)
+                twin_pair.append(pool_b.index(nb))
     if has_va and not H.sig_names(sig) and kkind != 'pyhash' and key_req not in ('evalable',) and draw(st.booleans()):
         # purely variadic function: a pair of one-argument calls whose arguments print alike (1 / '1')
         lookalike = []
@@ -361,6 +363,8 @@ def cache_cases(draw, modules=('std', 'safe'), algos=tuple(H.ALGOS), maxsizes=(1
         case['confusable_pair'] = True
     if lookalike:
         case['lookalike_pair'] = lookalike
+    if len(twin_pair) == 2:
+        case['twin_pair'] = twin_pair
     if tol is not None:
         case['tol'] = tol
         case['deep'] = draw(st.sampled_from(deeps))
